@@ -370,6 +370,16 @@ impl CorruptSpec {
                     18 | 19 => {
                         // every ',' and ';' of a string value becomes a digit: "x64;1033,1031" turns into
                         // one long number (18), or its tail does (19)
+                        // (the template property, id 7, if the set has one; else the picked one)
+                        let mut voff = voff;
+                        for k in 0..n {
+                            let e = so.saturating_add(8 + 8 * k);
+                            if r32(d, e) == Some(7) {
+                                if let Some(o) = r32(d, e.saturating_add(4)) {
+                                    voff = so.saturating_add(o);
+                                }
+                            }
+                        }
                         let ty = r32(d, voff).unwrap_or(0);
                         let len = r32(d, voff.saturating_add(4)).unwrap_or(0);
                         if ty == 30 && len >= 2 && len < 100_000 {
